@@ -1,4 +1,5 @@
 import Jose.Jwk
+import Jose.Fmt
 import Jose.Driver.Util
 import Jose.Driver.B64
 import Jose.Driver.Entity
@@ -31,7 +32,45 @@ def jwkPureOps : List (String × (Json → Json)) := [
     | _, _ => .obj [("r", .bool false)])
 ]
 
-def pureOps : List (String × (Json → Json)) := b64Ops ++ entityOps ++ jwkPureOps
+def strOfHex (h : String) : String :=
+  match String.fromUTF8? (unhexBytes h) with
+  | some s => s
+  | none => ""
+
+def hexOfStr (s : String) : String := hexOfBytes s.toUTF8
+
+def filesArg (a : Json) : List (String × String) :=
+  match a.get? "files" with
+  | some (.obj kvs) => kvs.filterMap (fun (k, v) => v.strVal?.map (fun h => (k, strOfHex h)))
+  | _ => []
+
+def argvOf (a : Json) : List String :=
+  match a.get? "argv" with
+  | some (.arr l) => l.filterMap Json.strVal?
+  | _ => []
+
+def cliResult (status : Nat) (stdout : String) (files : List (String × String)) : Json :=
+  .obj [("status", .int status), ("stdout", .str (hexOfStr stdout)),
+        ("files", .obj (files.map (fun (f, t) => (f, Json.str (hexOfStr t)))))]
+
+def fmtCli (a : Json) (argv : List String) : Json :=
+  let stdin := (argStr? a "stdin").map strOfHex |>.getD ""
+  match Fmt.parseArgv stdin (filesArg a) argv with
+  | none => cliResult 255 "" []          -- option parsing failed: usage, status -1
+  | some ops =>
+    let (st, oc) := Fmt.run ops
+    let (so, fs) := Fmt.finalFiles st.out
+    cliResult (Fmt.exitStatus oc) so fs
+
+/-- `jose fmt` through the line protocol (the only subcommand that needs no primitive) -/
+def fmtOps : List (String × (Json → Json)) := [
+  ("cli.run", fun a =>
+    match argvOf a with
+    | "fmt" :: rest => fmtCli a rest
+    | _ => err "unmodelled-subcommand")
+]
+
+def pureOps : List (String × (Json → Json)) := b64Ops ++ entityOps ++ jwkPureOps ++ fmtOps
 
 /-- one row of the regenerated table: the operation, its arguments, what the implementation answered -/
 structure GridRow where
